@@ -100,6 +100,7 @@ func (r *Replica) Flush() error { r.Flushes++; return r.BC.VerifPersist() }
 // disk backends the database file is closed and reopened as well.
 func (r *Replica) Restart() error {
 	r.BC.Close()
+	r.BC = nil // closed: a failing reopen must not leave it to be closed again
 	r.Restarts++
 	if r.dir != "" {
 		if err := r.Store.RealClose(); err != nil {
